@@ -521,7 +521,46 @@ theorem certSound (env : Env) (defs : Spec.Defs) :
       | some d =>
         simp only [hres] at hc hcov
         cases hbody : d.body with
-        | enum a b c e g => simp [hbody] at hc
+        | enum vals wr ic cs ms =>
+          cases hty : d.ty <;> simp only [hbody, hty] at hc <;> try (simp at hc; done)
+          cases wr <;> simp only at hc <;> try (simp at hc; done)
+          simp only [Bool.and_eq_true, Bool.or_eq_true, beq_iff_eq, List.isEmpty_iff, Bool.not_eq_true'] at hc
+          obtain ⟨⟨⟨⟨⟨hmeth, htypes⟩, hj⟩, hallOf⟩, hanyOf⟩, hnot⟩ := hc
+          obtain ⟨l, hl, he⟩ := strEnumJustified_eq vals s hj
+          rw [acc_named_iff env nm d j hres] at hacc
+          simp only [hmeth, ↓reduceIte] at hacc
+          obtain ⟨f0, v, h⟩ := hacc
+          -- the method needs two units of fuel, and only looks at strings
+          obtain ⟨f2, rfl⟩ : ∃ f2, f0 = f2 + 2 := by
+            cases f0 with
+            | zero => simp [runMethod] at h
+            | succ f1 =>
+              cases f1 with
+              | zero => simp [runMethod, hbody, decode] at h
+              | succ f2 => exact ⟨f2, rfl⟩
+          obtain ⟨x, rfl⟩ : ∃ x, j = .str x := by
+            cases j with
+            | str x => exact ⟨x, rfl⟩
+            | null => exact absurd rfl hjnn
+            | bool b =>
+              obtain ⟨e, he'⟩ := C08.string_enum_method_rejects_other_types env d vals ic cs ms (.bool b) f2 hbody hty (by intro s e; cases e) (by intro e; cases e)
+              rw [he'] at h; cases h
+            | num q =>
+              obtain ⟨e, he'⟩ := C08.string_enum_method_rejects_other_types env d vals ic cs ms (.num q) f2 hbody hty (by intro s e; cases e) (by intro e; cases e)
+              rw [he'] at h; cases h
+            | arr xs =>
+              obtain ⟨e, he'⟩ := C08.string_enum_method_rejects_other_types env d vals ic cs ms (.arr xs) f2 hbody hty (by intro s e; cases e) (by intro e; cases e)
+              rw [he'] at h; cases h
+            | obj kvs =>
+              obtain ⟨e, he'⟩ := C08.string_enum_method_rejects_other_types env d vals ic cs ms (.obj kvs) f2 hbody hty (by intro s e; cases e) (by intro e; cases e)
+              rw [he'] at h; cases h
+          have hmem := (C08.string_enum_method_exact .json env d vals ic cs ms x f2 hbody hty).mp ⟨v, h⟩
+          refine ⟨2, ?_⟩
+          obtain ⟨n⟩ := s
+          simp only [node_mk'] at hr htypes he hallOf hanyOf hnot hfS
+          rcases htypes with ht | ht <;>
+            simp [Spec.valid, dropTop, node_mk', hr, ht, he, hmem, hallOf, hanyOf, hnot, Spec.validAll, Spec.hasType,
+              lengthOK_zero, patternOK_empty, Spec.formatOK, hfS]
         | «alias» t => simp [hbody] at hc
         | plain vs m =>
           cases hty : d.ty with
@@ -857,5 +896,20 @@ def exDefsO : Spec.Defs := [("Person", .mk { types := ["object"], required := ["
 
 example : certAll exEnvO exDefsO 6 (.named "Root") exSchemaO = true ∧
     certCov exEnvO exDefsO 6 (.named "Root") exSchemaO = true ∧ topFree exSchemaO = true := by decide +kernel
+
+/-- … and string enums -/
+def exEnvE : Env := [
+  { name := "Root", ty := .strct [
+      { name := "Colour", jsonName := "colour", ty := .named "RootColour", tags := "", jsonKey := "colour", yamlKey := "colour", omitEmpty := false },
+      { name := "Shades", jsonName := "shades", ty := .slice (.named "RootColour"), tags := "", jsonKey := "shades", yamlKey := "shades", omitEmpty := true }],
+    body := .plain [.required "colour"] true },
+  { name := "RootColour", ty := .string, body := .enum [.str "red", .str "green"] false false [] true }]
+
+def exSchemaE : Schema := .mk { types := ["object"], required := ["colour"], props := [
+  ("colour", .mk { types := ["string"], enum := some [.str "red", .str "green"] }),
+  ("shades", .mk { types := ["array"], items := some (.mk { enum := some [.str "red", .str "green"] }) })] }
+
+example : certAll exEnvE [] 6 (.named "Root") exSchemaE = true ∧
+    certCov exEnvE [] 6 (.named "Root") exSchemaE = true ∧ topFree exSchemaE = true := by decide +kernel
 
 end GJS.Props.C02
